@@ -618,4 +618,95 @@ theorem secLoad_inside (c : Cls) (enc : Enc) (ls : LoadSt) (k : Nat) (isLazy : B
     refine ⟨⟨fd, true, ?_, fun _ => rfl⟩, by simp [he, hf]⟩
     simp [secHdr, secInit]
 
+/-! ### section states and the section loop -/
+
+/-- section `idx` (record at `k`) of image `img` in the loader's hands: header decoded; data
+    resident (`res`) or not; `nm` is its resolved name -/
+def SecSt (c : Cls) (enc : Enc) (img : Bytes) (k : Nat) (isLazy : Bool) (idx : Nat) (res : Bool)
+    (nm : Bytes) (b : SecBuf) : Prop :=
+  ∃ (fd : Option Bytes) (L : Bool),
+    b = { secHdr c enc img k isLazy idx with
+            addrSet := true, fileData := fd, name := nm, canLoad := !res || L, isLoaded := res && L,
+            data := if res then (secData img (secHdr c enc img k isLazy idx)).1 else none,
+            dataSize := if res then (secData img (secHdr c enc img k isLazy idx)).2 else 0 } ∧
+    (isNullOrNobitsTy (secHdr c enc img k isLazy idx).stype = false → L = true)
+
+theorem secLoad_inside' (c : Cls) (enc : Enc) (ls : LoadSt) (k : Nat) (isLazy : Bool) (idx : Nat)
+    (he : ls.st.eof = false) (hf : ls.st.fail = false)
+    (h63 : ls.st.data.length < 9223372036854775808) (hk : k + shdrSize c ≤ ls.st.data.length)
+    (hin : SecInside ls.st.data.length (secHdr c enc ls.st.data k isLazy idx)) :
+    SecSt c enc ls.st.data k isLazy idx (!isLazy) [] (secLoad c enc [] ls (Int.ofNat k) isLazy idx).2 ∧
+    (secLoad c enc [] ls (Int.ofNat k) isLazy idx).1.st.eof = false ∧
+    (secLoad c enc [] ls (Int.ofNat k) isLazy idx).1.st.fail = false ∧
+    (secLoad c enc [] ls (Int.ofNat k) isLazy idx).1.st.data = ls.st.data ∧
+    (secLoad c enc [] ls (Int.ofNat k) isLazy idx).1.st.kind = ls.st.kind := by
+  obtain ⟨⟨fd, L, h1, h2⟩, h3⟩ := secLoad_inside c enc ls k isLazy idx he hf h63 hk hin
+  refine ⟨⟨fd, L, ?_, h2⟩, h3⟩
+  rw [h1]
+  cases isLazy <;> simp [secHdr, secInit]
+
+/-- `get_data()` in any such state, on any stream over the image, makes the file range resident -/
+theorem secGetData_SecSt (c : Cls) (enc : Enc) (img : Bytes) (k : Nat) (isLazy : Bool) (idx : Nat)
+    (res : Bool) (nm : Bytes) (b : SecBuf) (ls : LoadSt) (hd : ls.st.data = img)
+    (h63 : img.length < 9223372036854775808)
+    (hin : SecInside img.length (secHdr c enc img k isLazy idx))
+    (hb : SecSt c enc img k isLazy idx res nm b) :
+    SecSt c enc img k isLazy idx true nm (secGetData c [] ls b).2 ∧
+    (secGetData c [] ls b).1.st.eof = ls.st.eof ∧ (secGetData c [] ls b).1.st.fail = ls.st.fail ∧
+    (res = true → secGetData c [] ls b = (ls, b)) := by
+  obtain ⟨fd, L, hb, hL⟩ := hb
+  subst hd
+  cases res
+  · have hg := secGetData_inside c ls b (by rw [hb]; rfl) (by rw [hb]; rfl) (by rw [hb]; rfl)
+      (by rw [hb]; simp [secHdr, secInit]) h63 (by rw [hb]; exact hin)
+    obtain ⟨⟨L', h1, h2⟩, h3⟩ := hg
+    refine ⟨⟨fd, L', ?_, ?_⟩, h3.1, h3.2, by simp⟩
+    · have hz : (secHdr c enc ls.st.data k isLazy idx).dataSize = 0 := by simp [secHdr, secInit]
+      rw [h1, hb]; simp [secData, hz]
+    · intro h; apply h2; rw [hb]; exact h
+  · have hno : secGetData c [] ls b = (ls, b) := by
+      rw [secGetData_eq, hb]; cases L <;> simp
+    rw [hno]
+    exact ⟨⟨fd, L, hb, hL⟩, rfl, rfl, fun _ => rfl⟩
+
+theorem ofNat_add_mul (a i e : Nat) : Int.ofNat a + Int.ofNat i * Int.ofNat e = Int.ofNat (a + i * e) := by
+  simp only [Int.ofNat_eq_natCast, Int.natCast_add, Int.natCast_mul]
+
+/-- **the section loop on an image that contains every record and every file-occupying range** -/
+theorem loadSectionsLoop_inside (c : Cls) (enc : Enc) (isLazy : Bool) (shoff entsize : Nat) (img : Bytes)
+    (h63 : img.length < 9223372036854775808) :
+    ∀ (n i : Nat) (ls : LoadSt) (acc : List SecBuf),
+      ls.st.data = img → ls.st.eof = false → ls.st.fail = false →
+      (∀ j, i ≤ j → j < i + n → shoff + j * entsize + shdrSize c ≤ img.length ∧
+        SecInside img.length (secHdr c enc img (shoff + j * entsize) isLazy j)) →
+      let r := loadSectionsLoop c enc [] isLazy (Int.ofNat shoff) entsize n i ls acc
+      r.1.st.data = img ∧ r.1.st.eof = false ∧ r.1.st.fail = false ∧ r.1.st.kind = ls.st.kind ∧
+      ∃ l : List SecBuf, r.2 = acc.reverse ++ l ∧ l.length = n ∧
+        ∀ j (h : j < l.length), SecSt c enc img (shoff + (i + j) * entsize) isLazy (i + j) (!isLazy) [] l[j] := by
+  intro n
+  induction n with
+  | zero =>
+    intro i ls acc hd he hf _
+    exact ⟨hd, he, hf, rfl, [], by simp [loadSectionsLoop], rfl, fun j h => absurd h (by simp)⟩
+  | succ n ih =>
+    intro i ls acc hd he hf hall
+    have hi := hall i (Nat.le_refl _) (by omega)
+    subst hd
+    have h1 := secLoad_inside' c enc ls (shoff + i * entsize) isLazy i he hf h63 hi.1 hi.2
+    obtain ⟨hs, he', hf', hd', hk'⟩ := h1
+    simp only [loadSectionsLoop, ofNat_add_mul]
+    have h2 := ih (i + 1) (secLoad c enc [] ls (Int.ofNat (shoff + i * entsize)) isLazy i).1
+      ((secLoad c enc [] ls (Int.ofNat (shoff + i * entsize)) isLazy i).2 :: acc) hd' he' hf'
+      (fun j h1 h2 => hall j (by omega) (by omega))
+    obtain ⟨g1, g2, g3, g4, l, g5, g6, g7⟩ := h2
+    refine ⟨g1, g2, g3, by rw [g4, hk'], (secLoad c enc [] ls (Int.ofNat (shoff + i * entsize)) isLazy i).2 :: l,
+      ?_, by simp [g6], ?_⟩
+    · rw [g5]; simp
+    · intro j h
+      cases j with
+      | zero => simpa using hs
+      | succ j =>
+        have := g7 j (by simpa using h)
+        simpa [Nat.add_assoc, Nat.add_comm 1 j] using this
+
 end ElfioVerif
